@@ -201,11 +201,10 @@ func c09HandleLock(c *Ctx) {
 	if fn == nil {
 		return
 	}
-	lf := analyseLocks(fn)
 	n := 0
 	for _, call := range calls(fn, suffixed("IndexPos).Seek", "IndexPos).Read")) {
 		n++
-		held := lf.must[call.(ssa.Instruction)]
+		held := heldAt(call.(ssa.Instruction), 0)
 		c.verdict(holds(held, ".mu", true), "indexFileHandle.read:"+callee(call), call.Pos(), "called with the handle mutex held exclusively",
 			fmt.Sprintf("the stateful cursor is used without the handle mutex held exclusively (held: %s): two FUSE requests on one handle interleave Seek and Read and return each other's bytes", held))
 	}
